@@ -207,7 +207,7 @@ func (s *seqRT) ruleStackNested() {
 		}
 		return nil
 	}
-	inner, st1, ok := s.construct(in, "SEQ.STACK.HEIGHT", "For", []AV{Sym{Name: "cond2", NN: true}, Nil{}, Sym{Name: "body2", NN: true}})
+	inner, st1, ok := s.construct(in, "SEQ.STACK.HEIGHT", "For", []AV{Sym{Name: "cond2", NN: true}, Sym{Name: "post2", NN: true}, Sym{Name: "body2", NN: true}})
 	if !ok {
 		return
 	}
@@ -223,15 +223,38 @@ func (s *seqRT) ruleStackNested() {
 	growth := ""
 	for _, o := range res {
 		var hs []int
+		// the inner loop value is run once per outer iteration: its condition (two calls per run) and its
+		// post statement must be reached at the same depth in every run as well (a per-run wrapper around
+		// a captured argument makes each run one call deeper than the one before)
+		condHs, postHs := []int{}, []int{}
 		for _, e := range o.St.Events {
-			if e.Kind == "call" && isSymNamed(e.Callee, "body2") {
-				hs = append(hs, strings.Count(e.Stack, " > ")+1)
+			if e.Kind != "call" {
+				continue
+			}
+			d := strings.Count(e.Stack, " > ") + 1
+			switch {
+			case isSymNamed(e.Callee, "body2"):
+				hs = append(hs, d)
+			case isSymNamed(e.Callee, "cond2"):
+				condHs = append(condHs, d)
+			case isSymNamed(e.Callee, "post2"):
+				postHs = append(postHs, d)
 			}
 		}
 		for i := 1; i < len(hs); i++ {
 			checked++
 			if hs[i] > hs[i-1] {
 				growth = fmt.Sprintf("abstract stack heights at the inner body over successive outer iterations: %v", hs)
+			}
+		}
+		for i := 2; i < len(condHs); i++ {
+			if condHs[i] > condHs[i-2] {
+				growth = fmt.Sprintf("abstract stack heights at the inner loop's condition over successive runs of the same loop value: %v", condHs)
+			}
+		}
+		for i := 1; i < len(postHs); i++ {
+			if postHs[i] > postHs[i-1] {
+				growth = fmt.Sprintf("abstract stack heights at the inner loop's post statement over successive runs of the same loop value: %v", postHs)
 			}
 		}
 	}
